@@ -518,7 +518,11 @@ where
 
     #[inline]
     fn argument(self) -> Self::RealField {
-        Self::zero()
+        if self.re >= T::zero() {
+            Self::zero()
+        } else {
+            Self::from_re(<T as FloatConst>::PI())
+        }
     }
 
     #[inline]
